@@ -223,8 +223,9 @@ def conservation(run, scn, meta, res, section, step_index=0, allow_stray_if_refu
         for name, e in eb.items():
             if ea.get(name) == e:
                 continue
-            if e['info'] is None and e['payload'] is not None and list(e['payload'].values())[0][0] == 'l':
-                continue
+            if (e['info'] is None and e['payload'] is not None and list(e['payload'].values())[0][0] == 'l'
+                    and (ea.get(name) or {}).get('info') is not None):
+                continue                      # replaced by the payload of a new, complete entry of that name
             run.fail('oracle', 'trash-put changed or removed something that was already in the trash',
                      dict(case, trash_dir=td, entry=esc(name), before=str(e)[:200], after=str(ea.get(name))[:200]),
                      key='existing-entry-changed', section=section)
